@@ -350,6 +350,8 @@ let dump_doc (idx : Stdlib.String.t) (flags : Stdlib.String.t) (text : n list) (
       let (a, e) = attr_range id in
       for k = a to e - 1 do if List.length !all < 12 then all := !all @ [k] done
     done;
+    (* the model's read operations are functions of the document and their arguments: no hidden state *)
+    pr "%s LB 0\n" idx;
     pr "%s LQ" idx;
     List.iter (fun a ->
         pr " ";
@@ -398,7 +400,13 @@ let dump_doc (idx : Stdlib.String.t) (flags : Stdlib.String.t) (text : n list) (
       (match o with Some _ -> cnt := !cnt + int_of_n (sit_len it') | None -> ())
     done;
     (* plus four walks of one iterator from both ends over the whole document: n items each *)
-    pr "%s OI %d\n" idx (!cnt + 4 * n)
+    (* plus descendants() of each of the first 40 nodes, plus skip(k).last() for k = 0..2 *)
+    let sub = ref 0 in
+    for id = 0 to (min n 40) - 1 do
+      sub := !sub + int_of_n (sit_len (get (descendants d (n_of_int id))))
+    done;
+    let lasts = (if n > 0 then 1 else 0) + (if n > 1 then 1 else 0) + (if n > 2 then 1 else 0) in
+    pr "%s OI %d\n" idx (!cnt + 4 * n + !sub + lasts)
   end;
   if has 'g' then begin
     let (lines, _maxh) = get (debug_document d) in
